@@ -10,7 +10,7 @@ TB = ("Trusted: Coq 8.16.1 kernel + coqc (vm_compute, no native_compute); axioms
 CHECKS = {
  "C01": dict(
    text='Proof (Coq): the node-chain model of iwkv.c (which node: _lx_find_bounds; where: _sblk_find_pi_mm; overwrite / add / add-to-upper / split at the pivot: _lx_addkv, _lx_split_addkv; delete / remove node: _lx_del_lw) refines an ordered association list for EVERY operation history and every comparator that is a total preorder (kv_refines_map), unconditionally for the byte-key and the integer-key comparator with node size and pivot regenerated from the source; NodeInv preserved; an error leaves the state unchanged; and the multi-level skip search (_lx_roll_forward on every level, any assignment of levels to nodes, any starting level) ends on the node the level-0 walk ends on (skip_search_is_linear). Tied by differential execution (answers, node structure, cursor bookkeeping, the node the real search ends on) and a python reference-map oracle; directed scripts around the 115-byte prefix, varint boundaries, node pages.',
-   design="5/C01", note=TB + 'The comparators of plain, integer, real-number and compound byte keys are proved to satisfy the three order laws (C01_kv_refines_map_bytes/_intkeys/_realkeys/_compound have no hypothesis on the comparator); integer / real-number keys with a compound part enter through the laws as hypotheses (checked on samples by C19). Data-block layout (L3) is not in this model; stored skip-list links are compared with the links the model derives from the levels by the independent reader of C06 on every image. malloc failure and I/O error paths are not exercised. Other-database isolation is by construction in the model (one chain per database) and checked on the implementation by the oracle.',
+   design="5/C01", note=TB + 'The comparators of plain, integer, real-number and compound byte keys are proved to satisfy the three order laws (C01_kv_refines_map_bytes/_intkeys/_realkeys/_compound/_real_compound/_int_compound have no hypothesis on the comparator: every key mode is covered, typed keys as the API produces them). Data-block layout (L3) is not in this model; stored skip-list links are compared with the links the model derives from the levels by the independent reader of C06 on every image. malloc failure and I/O error paths are not exercised. Other-database isolation is by construction in the model (one chain per database) and checked on the implementation by the oracle.',
    technique='Coq refinement proof by induction over operation lists + skip-search theorem + extracted-model vs implementation correspondence + regenerated facts'),
  "C02": dict(
    text="Proof (Coq): on the cursor model of iwkv.c (_cursor_to_lr with the head/tail pseudo nodes, node copies, skip marks) a scan from before-first with NEXT returns exactly the records of the chain, in chain order, once each (scan_next_all), AFTER_LAST+PREV the exact reverse (scan_prev_all); EQ and GE position on exactly the record the ordered specification designates or report not-found exactly when there is none, whatever the cursor did before (cursor_eq_spec, cursor_ge_spec); deleting / overwriting through a positioned cursor acts on exactly the record it reads (cursor_del_spec: flat' = s_del flat k0; cursor_set_spec: same node, slot and key, value replaced, all other records and the key order unchanged), invariant kept. Model compared with the implementation call by call (answers and cursor bookkeeping cnpos/skip_next/copy); reference-map oracle incl. GE/EQ probes around deleted head keys and keys longer than the cached prefix.",
@@ -140,7 +140,7 @@ CHECKS = {
         "115-byte prefix (_lx_sblk_cmp_key) decides what the complete stored key decides, for every key length. Model tied by differential execution vs the implementation's static functions and a "
         "property-level oracle on key triples per key mode, all buffer sizes 0..64 with guard bytes.",
    design="5/C19",
-   note=TB + "Partial: buffer bounds of iwitoa for every size, and the order laws of integer and real-number keys WITH a compound part, and the numeric agreement of iwafcmp (exact rational in the model, long double in C), "
+   note=TB + "Partial: buffer bounds of iwitoa for every size, and the numeric agreement of iwafcmp (exact rational in the model, long double in C) "
         "are decided by model-vs-implementation comparison and the oracle, not proved. iwafcmp fractions: exact rationals in the model vs long double in C (generator stays where both agree).",
    technique="Coq proofs (induction + lia, finite sweep) over hand-written model; extracted-model vs implementation correspondence; regenerated facts"),
  "C20": dict(
